@@ -42,6 +42,7 @@ func checkC10(p *Prog, r *Report) {
 	c10Rows(p, r)
 	c10HostID(p, r)
 	c10Tokens(p, r)
+	c10MetadataImmutable(p, r)
 }
 
 func exprString(e ast.Expr) string {
@@ -905,4 +906,71 @@ func c10Tokens(p *Prog, r *Report) {
 	}
 	r.count("sim_states", s.Nodes)
 	r.check(len(bad) == 0 && n > 0, rule, "Proxy.buildNodes", p.Pos(bn.Pos()), fmt.Sprintf("%d successful paths", n), strings.Join(dedupe(bad), " || "))
+
+	// inside the assignment loop every node gets its slot: the store is not conditional on
+	// anything tested within an iteration (a node keeping an earlier token shares it with the
+	// node whose position owns that slot, and disagrees with the other proxies of the list)
+	var cond []string
+	nst := 0
+	for _, fn := range withCallees(p, bn, 2) {
+		for _, st := range hasTokenStore(fn) {
+			d := loopDepthOf(st.Block())
+			if d == 0 {
+				continue
+			}
+			nst++
+			for _, b := range fn.Blocks {
+				ifi, ok := lastIf(b)
+				if !ok || isLoopHeader(b) || loopDepthOf(b) < d || b.Succs[0] == b.Succs[1] {
+					continue
+				}
+				for _, succ := range b.Succs {
+					if len(succ.Preds) == 1 && succ.Dominates(st.Block()) {
+						cond = append(cond, fmt.Sprintf("%s: the token of a node is assigned only under a per-node test (%s at %s): nodes that fail it keep whatever token they had, which does not match their position in address order", p.Pos(st.Pos()), valDesc(ifi.Cond), p.Pos(ifi.Pos())))
+					}
+				}
+			}
+		}
+	}
+	r.check(len(cond) == 0 && nst > 0, rule, "Proxy.buildNodes:every-node", p.Pos(bn.Pos()), fmt.Sprintf("%d assignment(s) in a loop over the nodes", nst), strings.Join(dedupe(cond), " || "))
+}
+
+// c10MetadataImmutable: the advertised column tables are process-wide values shared by
+// every connection; a selector that renames or edits a column must work on a copy.
+func c10MetadataImmutable(p *Prog, r *Report) {
+	const rule = "C10.metadata-immutable"
+	r.Rule(rule, "column metadata reachable from the advertised column tables is never written through: stores to fields of a ColumnMetadata go to a local copy only, and no element of a column table is replaced (a write would change what every later read of the table advertises, on every connection)")
+	var bad []string
+	nst := 0
+	for _, fn := range p.ScopedFuncs("parser", "proxy") {
+		eachInstr(fn, func(in ssa.Instruction) {
+			st, ok := in.(*ssa.Store)
+			if !ok {
+				return
+			}
+			switch a := st.Addr.(type) {
+			case *ssa.FieldAddr:
+				n := namedOf(a.X.Type())
+				if n == nil || n.Obj().Name() != "ColumnMetadata" || n.Obj().Pkg() == nil || !strings.HasSuffix(n.Obj().Pkg().Path(), "/message") {
+					return
+				}
+				nst++
+				for _, o := range origins(a.X) {
+					if al, ok := o.(*ssa.Alloc); ok && al.Parent() == fn {
+						continue
+					}
+					bad = append(bad, fmt.Sprintf("%s: %s writes %s of a ColumnMetadata it did not copy (%s)", p.Pos(st.Pos()), fn.Name(), fieldOfAddr(a).Name(), valDesc(a.X)))
+				}
+			case *ssa.IndexAddr:
+				for _, o := range origins(a.X) {
+					if ld, ok := o.(*ssa.UnOp); ok {
+						if g, ok := ld.X.(*ssa.Global); ok && strings.HasSuffix(g.Name(), "Columns") {
+							bad = append(bad, fmt.Sprintf("%s: %s replaces an element of the column table %s", p.Pos(st.Pos()), fn.Name(), g.Name()))
+						}
+					}
+				}
+			}
+		})
+	}
+	r.check(len(bad) == 0, rule, "ColumnMetadata writers", "", fmt.Sprintf("%d field stores, all into local copies", nst), strings.Join(dedupe(bad), " || "))
 }
